@@ -122,24 +122,24 @@ Proof.
 Qed.
 
 (* THE C08 statement, null skipping: the kernel's output array IS the per-group prefix reduction *)
-Theorem cumulative_is_cum_spec op gk vals ng mask :
+Theorem cumulative_is_cum_spec temporal op gk vals ng mask :
   length vals = length gk -> wf_mask (length gk) mask ->
   (forall k, In k gk -> k < Z.of_nat ng) ->
-  cumulative o op true gk vals ng mask = cum_spec o op gk vals mask.
+  cumulative_t o temporal op true gk vals ng mask = cum_spec o op gk vals mask.
 Proof.
   intros Hv Hm Hng. apply (list_ext (null o)).
-  - unfold cumulative, cum_spec. rewrite kscan_length, map_length, seq_length. apply rows_length; auto.
-  - intros i Hi. unfold cumulative in Hi. rewrite kscan_length, (rows_length gk vals mask Hv Hm) in Hi.
+  - unfold cumulative_t, cum_spec. rewrite kscan_length, map_length, seq_length. apply rows_length; auto.
+  - intros i Hi. unfold cumulative_t in Hi. rewrite kscan_length, (rows_length gk vals mask Hv Hm) in Hi.
     unfold cum_spec. unfold get at 2.
     rewrite nth_map_seq by exact Hi.
     assert (Hn := rows_get o gk vals mask Hv Hm i Hi).
     destruct (get (-1) gk i <? 0) eqn:Ek.
-    + apply Z.ltb_lt in Ek. unfold get at 1, cumulative.
+    + apply Z.ltb_lt in Ek. unfold get at 1, cumulative_t.
       eapply kscan_nth_null; [exact Hn | exact Ek].
     + apply Z.ltb_ge in Ek.
       assert (Hlt : (Z.to_nat (get (-1)%Z gk i) < ng)%nat).
       { assert (In (get (-1) gk i) gk) by (apply nth_In; exact Hi). specialize (Hng _ H). lia. }
-      unfold get at 1. rewrite (cumulative_row o op true gk vals ng mask i _ _ _ Hn Ek Hlt).
+      unfold get at 1. rewrite (cumulative_row_t o temporal op true gk vals ng mask i _ _ _ Hn Ek Hlt).
       rewrite <- (prefix_is_earlier o gk vals mask Hv Hm i Hi Ek).
       destruct op; cbn [cum_reducer reducer_of cum_init].
       * now rewrite (nansum_spec o L).
@@ -148,35 +148,39 @@ Proof.
       * rewrite nancount_fst by reflexivity. reflexivity.
 Qed.
 
-(* ---- skip_na = False: the running sum includes nulls (a null makes it null from there on) ---- *)
-Hypothesis SC : sum_closed o.
+(* ---- skip_na = False on numeric columns: every selected value is added.  For floats a NaN makes the
+   running sum NaN from there on (addition propagates it); plain integers hold no nulls. ---- *)
 Hypothesis null_unique : forall x, is_null o x = true -> x = null o.
+Hypothesis add_null : forall a b, is_null o a = true \/ is_null o b = true -> is_null o (add o a b) = true.
 
-Lemma sum_noskip_stuck l : forall a c, 0 < c -> is_null o a = true ->
-  fst (series (r_sum o) l (a, c)) = a.
+Lemma sum_plain_run l : forall a c, 0 < c -> fst (series (r_sum o) l (a, c)) = fold_left (add o) l a.
 Proof.
-  induction l as [|x t IH]; intros a c Hc Ha; [reflexivity|].
-  rewrite series_cons. cbn [fst snd]. unfold r_sum. rewrite (truthy_pos c Hc), Ha. apply IH; auto; lia.
+  induction l as [|x t IH]; intros a c Hc; [reflexivity|].
+  rewrite series_cons. cbn [fst snd fold_left]. unfold r_sum. rewrite (truthy_pos c Hc). apply IH. lia.
 Qed.
 
-Lemma sum_noskip_run l : forall a c, 0 < c -> is_null o a = false ->
-  fst (series (r_sum o) l (a, c)) = if existsb (is_null o) l then null o else fold_left (add o) l a.
+Lemma sum_plain l : fst (series (r_sum o) l (zero o, 0)) = sum_list o l.
 Proof.
-  induction l as [|x t IH]; intros a c Hc Ha; [reflexivity|].
-  rewrite series_cons. cbn [fst snd existsb fold_left]. unfold r_sum. rewrite (truthy_pos c Hc), Ha.
-  destruct (is_null o x) eqn:Ex; cbn [orb].
-  - rewrite sum_noskip_stuck by (auto; lia). now apply null_unique.
-  - apply IH; [lia|]. apply SC; auto.
+  destruct l as [|x t]; [reflexivity|].
+  rewrite series_cons. cbn [fst snd]. unfold r_sum. change (truthy 0) with false. cbv iota.
+  rewrite sum_plain_run by lia. unfold sum_list. cbn [fold_left]. now rewrite (add_zero_l _ L).
+Qed.
+
+Lemma fold_add_null_acc l : forall a, is_null o a = true -> is_null o (fold_left (add o) l a) = true.
+Proof. induction l as [|x t IH]; intros a Ha; simpl; auto. Qed.
+Lemma fold_add_null_in l : forall a, existsb (is_null o) l = true -> is_null o (fold_left (add o) l a) = true.
+Proof.
+  induction l as [|x t IH]; intros a H; simpl in *; [discriminate|].
+  destruct (is_null o x) eqn:E; simpl in H.
+  - apply fold_add_null_acc. apply add_null. auto.
+  - apply IH; auto.
 Qed.
 
 Lemma sum_noskip_spec l :
   fst (series (r_sum o) l (zero o, 0)) = if existsb (is_null o) l then null o else sum_list o l.
 Proof.
-  destruct l as [|x t]; [reflexivity|].
-  rewrite series_cons. cbn [fst snd existsb]. unfold r_sum. change (truthy 0) with false. cbv iota.
-  destruct (is_null o x) eqn:Ex; cbn [orb].
-  - rewrite sum_noskip_stuck by (auto; lia). now apply null_unique.
-  - rewrite sum_noskip_run by (auto; lia). unfold sum_list. cbn [fold_left]. now rewrite (add_zero_l _ L).
+  rewrite sum_plain. destruct (existsb (is_null o) l) eqn:E; auto.
+  apply null_unique. unfold sum_list. now apply fold_add_null_in.
 Qed.
 
 Theorem cumsum_noskip_is_spec gk vals ng mask :
@@ -185,12 +189,12 @@ Theorem cumsum_noskip_is_spec gk vals ng mask :
   cumulative o CSum false gk vals ng mask = cumsum_noskip_spec o gk vals mask.
 Proof.
   intros Hv Hm Hng. apply (list_ext (null o)).
-  - unfold cumulative, cumsum_noskip_spec. rewrite kscan_length, map_length, seq_length. apply rows_length; auto.
-  - intros i Hi. unfold cumulative in Hi. rewrite kscan_length, (rows_length gk vals mask Hv Hm) in Hi.
+  - unfold cumulative, cumulative_t, cumsum_noskip_spec. rewrite kscan_length, map_length, seq_length. apply rows_length; auto.
+  - intros i Hi. unfold cumulative, cumulative_t in Hi. rewrite kscan_length, (rows_length gk vals mask Hv Hm) in Hi.
     unfold cumsum_noskip_spec. unfold get at 2. rewrite nth_map_seq by exact Hi.
     assert (Hn := rows_get o gk vals mask Hv Hm i Hi).
     destruct (get (-1) gk i <? 0) eqn:Ek.
-    + apply Z.ltb_lt in Ek. unfold get at 1, cumulative.
+    + apply Z.ltb_lt in Ek. unfold get at 1, cumulative, cumulative_t.
       eapply kscan_nth_null; [exact Hn | exact Ek].
     + apply Z.ltb_ge in Ek.
       assert (Hlt : (Z.to_nat (get (-1)%Z gk i) < ng)%nat).
